@@ -518,6 +518,10 @@ func (x *runner) runC04() {
 		if strings.HasPrefix(impl, "panic") {
 			r.OracleFail(hx.Case{Sig: "C04 decoder panicked (" + string(f) + ")", Op: op, Impl: impl, Expected: "a value or an error"})
 		}
+		if impl == "hang" {
+			r.OracleFail(hx.Case{Sig: "C04 decoder does not terminate (" + string(f) + ")", Op: op, Impl: impl, Expected: "a value or an error"})
+			return
+		}
 		cls := impl
 		if i := strings.IndexByte(impl, ' '); i > 0 {
 			if j := strings.IndexByte(impl[i+1:], ' '); j > 0 && strings.HasPrefix(impl, "err") {
@@ -553,12 +557,25 @@ func (x *runner) runC04() {
 	}
 	rec(nil, maxLen)
 	r.Exhaustive = false
+	// query strings: the parameter separators themselves
+	var recq func(prefix []byte, n int)
+	recq = func(prefix []byte, n int) {
+		check("query", P("str"), prefix, "C04 dec query")
+		check("query", R("Inner"), prefix, "C04 dec query")
+		if n == 0 {
+			return
+		}
+		for _, c := range []byte("&=p1(%") {
+			recq(append(append([]byte{}, prefix...), c), n-1)
+		}
+	}
+	recq(nil, maxLen+1)
 	// truncations and single-byte edits of valid encodings
 	nv := 2
 	if x.cfg.Tier == "thorough" {
 		nv = 10
 	}
-	edits := []byte("(),:'%\"\\{}[] 0x\x00\xff")
+	edits := []byte("(),:'%\"\\{}[] 0x\x00\xff&=")
 	for _, t := range x.topTypes() {
 		for i := 0; i < nv; i++ {
 			v := x.env.GenValue(x.rng, t, 2, GenOpts{OptPct: 50})
@@ -621,7 +638,7 @@ func (x *runner) runC06() {
 			continue
 		}
 		for i := 0; i < n; i++ {
-			v := x.env.GenValue(x.rng, t, 3, GenOpts{OptPct: 70})
+			v := x.env.GenValue(x.rng, t, 3, GenOpts{OptPct: 70, LongArrays: true})
 			ref := x.env.RefDoc(t, v)
 			if ref == nil {
 				continue
@@ -954,6 +971,54 @@ func (x *runner) runC09() {
 				}
 				x.ask(op, first, "C09 enc "+string(f))
 			}
+			// the same under a field-exclusion spec (the writer drops entries before it orders them)
+			ref := x.env.RefDoc(t, v)
+			if ref == nil {
+				continue
+			}
+			var paths [][]string
+			docPaths(ref, nil, &paths)
+			if len(paths) == 0 {
+				continue
+			}
+			var excl []string
+			for k := 0; k < 1+x.rng.Intn(2); k++ {
+				p := paths[x.rng.Intn(len(paths))]
+				ok := len(p) <= 3
+				for _, seg := range p {
+					if seg == "" || strings.Contains(seg, "/") || seg == "$set" || seg == "$delete" {
+						ok = false
+					}
+				}
+				if ok {
+					excl = append(excl, strings.Join(p, "/"))
+				}
+			}
+			if len(excl) == 0 {
+				continue
+			}
+			for _, f := range []Fmt{"json", "header"} {
+				op := x.encOp(f, t, v, excl)
+				first, data := x.b.Encode(f, t, v, excl)
+				r.OracleCases++
+				r.Count("with-exclusion")
+				if data == nil {
+					continue
+				}
+				for k := 0; k < 3; k++ {
+					again, _ := x.b.Encode(f, t, shuffleV(v, x.rng), excl)
+					if again != first {
+						r.OracleFail(hx.Case{Sig: "C09 encoding depends on insertion order or run (" + string(f) + ", with exclusion)", Op: op, Impl: again, Expected: first})
+						break
+					}
+				}
+				if f == "header" {
+					if tree, err := ParseROR2Ref(string(data), false); err == nil && !keysAscending(tree) {
+						r.OracleFail(hx.Case{Sig: "C09 object keys not ascending (header, with exclusion)", Op: op, Impl: string(data)})
+					}
+				}
+				x.ask(op, first, "C09 enc excl "+string(f))
+			}
 		}
 	}
 }
@@ -1134,7 +1199,7 @@ func (x *runner) runC13() {
 	if x.cfg.Tier == "thorough" {
 		n = 150
 	}
-	for _, name := range []string{"Defaults", "InclDefaults", "NestedDefaults"} {
+	for _, name := range []string{"Defaults", "InclDefaults", "NestedDefaults", "OptDefaults", "NeedsOptDefaults"} {
 		t := R(name)
 		// fresh default instance
 		if mk, ok := gen.Defaults[name]; ok {
@@ -1147,7 +1212,17 @@ func (x *runner) runC13() {
 			}
 		} else {
 			r.OracleCases++
-			r.OracleFail(hx.Case{Sig: "C13 no default constructor generated for a record with (inherited) defaults [defaults inherited from an included record are not applied]", Op: "new " + name, Impl: "missing", Expected: "New" + name + "WithDefaultValues"})
+			note := ""
+			ownDefault := false
+			for _, f := range x.env.Find(name).Fields {
+				if f.Default != nil {
+					ownDefault = true
+				}
+			}
+			if !ownDefault {
+				note = " [defaults inherited from an included record are not applied]"
+			}
+			r.OracleFail(hx.Case{Sig: "C13 no default constructor generated for a record with defaults" + note, Op: "new " + name, Impl: "missing", Expected: "New" + name + "WithDefaultValues"})
 		}
 		for i := 0; i < n; i++ {
 			v := x.env.GenValue(x.rng, t, 3, GenOpts{OptPct: []int{0, 30, 70, 100}[x.rng.Intn(4)]})
